@@ -38,7 +38,7 @@ _N = [0]
 
 
 def gen_case(rng, per):
-    ops = [["load_predefined"]] + _money.setup(CODES)
+    ops = [["load_predefined"]] + _money.setup(CODES) + _money.user_setup()
     late = []
     price_units = {}      # symbol -> (class, currency, x-unit)
     for cls, xunits in rng.sample(sorted(PER.items()), rng.randint(1, 3)):
@@ -66,7 +66,9 @@ def gen_case(rng, per):
                 price_units[sym2] = (pname2, cur, f"{xu}*{lu}")
     rates = {}
     for i in range(6):
-        a, b = rng.sample(CODES, 2)
+        # (the last two rates lead into / out of a user-declared currency whose
+        # smallest fraction is not a power of ten)
+        a, b = rng.sample(CODES, 2) if i < 4 else rng.sample([rng.choice(CODES), rng.choice(sorted(_money.USER))], 2)
         v = _money.rand_rate_value(rng)
         name = f"r{i}"
         ops.append(["rate_new", name, a, rng.choice(["int:1", "int:100"]), b, _money.ta_token(rng, v), _money.MODE])
@@ -98,7 +100,7 @@ def gen_case(rng, per):
         r = rng.random()
         amt = rat(Fraction(rng.randint(-10 ** 6, 10 ** 6), rng.choice([1, 100, 1000, 7])))
         if r < .45:
-            cur = rng.choice([rates[rn][0], rates[rn][1], rng.choice(CODES)])
+            cur = rng.choice([rates[rn][0], rates[rn][0], rates[rn][1], rng.choice(CODES)])
             ops.append(["money_rate", rng.choice(["mul", "rmul", "div", "rdiv"]), f"{amt}@{cur}", rn, mode])
         elif r < .92 and price_units and declared_now:
             sym = rng.choice(sorted(declared_now & set(price_units)) or sorted(declared_now))
@@ -164,7 +166,7 @@ def oracle(case, impl):
         a, _, u = o[2].rpartition("@")
         x = parse_rat(a)
         what = str(o)
-        if u in _money.MINOR:                      # plain money
+        if u in _money.MINOR or u in _money.USER:  # plain money
             f = _money.frac_of(u)
             x = round_ref(x / f, mode) * f
             if op == "rdiv":
